@@ -11,7 +11,9 @@ it, plus a few context-free renderings of the same text that TLC cannot compute 
     "xfs":   [ {"id": int, "custom": bool, "code": str} ],            # cellXfs[i] -> numFmtId (-> <numFmt> code)
     "sheets":[ {"name": str, "kind": str, "noref": bool,
                 "cells": [rawcell],                                     # document order
-                "links": [ {"r","c","ext": bool,"val": str,"skip": bool} ],
+                "links": [ {"r","c","ext": bool,"val": str,"hasloc": bool,"loc": str,"tip": str,"skip": bool} ],
+                                                    # ext: r:id present, val = Target of that relationship; location / tooltip
+                                                    # attributes as written; skip: range ref or dangling r:id (not judged)
                 "tcols": [[str]] } ],                                   # column names per table, sorted
     "names": [ {"name": str, "local": int} ] }                          # defined names, sorted
 
@@ -447,9 +449,9 @@ def _sheet(pkg, part, want_cells=True):
             rel = pkg.rel_target(part, rid) if rid else None
             r1, c1, r2, c2 = X.parse_range(ref)
             loc = h.get("location")
-            skip = (r1, c1) != (r2, c2) or r1 < 1 or c1 < 1 or (rid != "" and loc is not None) or (rid != "" and rel is None) \
-                or (rid == "" and loc is None)
-            out["links"].append({"r": r1, "c": c1, "ext": rid != "", "val": (rel["target"] if rel else "") if rid else (loc or ""),
+            skip = (r1, c1) != (r2, c2) or r1 < 1 or c1 < 1 or (rid != "" and rel is None) or (rid == "" and loc is None)
+            out["links"].append({"r": r1, "c": c1, "ext": rid != "", "val": (rel["target"] if rel else "") if rid else "",
+                                 "hasloc": loc is not None, "loc": loc or "", "tip": h.get("tooltip", ""),
                                  "skip": bool(skip)})
     for it in pkg.rels_of(part):
         if not it["external"] and it["kind"] == "table" and pkg.exists(it["resolved"]):
